@@ -362,6 +362,22 @@ def check(ctx: Ctx) -> None:
         ob.site(fc, fc.node, "close() closes the channel iff proxyclose was requested", ok=ok)
         if not ok:
             ob.violation(fc, fc.node, "ChannelFile.close does not close the channel exactly when proxyclose was requested")
+        # ... and nothing else in the file classes closes it behind the caller's back (EOF handling goes through self.close())
+        nmeth = 0
+        for cname in ("ChannelFile", "ChannelFileRead", "ChannelFileWrite"):
+            for mname, mfi in sorted(repo.cls(cname).methods.items()):
+                nmeth += 1
+                evm_ = evaluator(repo, mfi, _recv_oracle(repo, mfi))
+                bad = set()
+                for (p, st) in all_paths(evm_):
+                    for e in st.events:
+                        if e.kind == "call" and e.recv == ("sym", "self.channel") and e.attr in ("close", "_close") and dict(st.cond[:e.ncond]).get(PC) is not True \
+                                and id(e.node) not in bad:
+                            bad.add(id(e.node))
+                            ob.violation(mfi, e.node, f"{cname}.{mname} closes the channel without proxyclose having been requested: a reader/writer made with makefile(..., proxyclose=False) "
+                                                      "must leave the channel open", construct=f"{cname}.{mname}: channel.close() not under _proxyclose")
+        ob.site(fc, fc.node, "no method of the file classes closes the channel except under `_proxyclose`", methods=nmeth)
+        ob.require(nmeth >= 8, f"{nmeth} methods of the channel file classes (floor 8)")
         fi = repo.func(f"{GB}.ChannelFile.__init__")
         evi = evaluator(repo, fi)
         for (p, st) in all_paths(evi):
